@@ -56,8 +56,18 @@ def text_of(desc):
 def run_exercise(acc, ex, inst, rp, produce, checker, cargs):
     """produce() -> answer text via make_notebook.apply_command; checker(*cargs(answer)) must print OK."""
     acc.transitions += 1
-    ok, answer = core.lib_call(acc, ex, inst, produce, repro=rp, clause='answer generation raises')
-    if not ok:
+    try:
+        answer = produce()
+    except RuntimeError as e:
+        if 'not in simple format' in str(e):
+            # exercise set-up, not library behaviour: the phase needs more than 26 variables, so the notebook
+            # generator cannot print an answer in the simple grammar format at all (DESIGN 4/C13 preconditions)
+            acc.c['exercise_not_expressible_in_simple_format'] += 1
+            return
+        acc.viol(ex, 'answer generation raises', inst, repro=rp, error=core.describe_exc(e))
+        return
+    except Exception as e:
+        acc.viol(ex, 'answer generation raises', inst, repro=rp, error=core.describe_exc(e))
         return
     ok, res = core.lib_call(acc, ex, dict(inst, answer=answer), verdict, checker, *cargs(answer), repro=rp, clause='checker raises')
     if not ok:
